@@ -54,7 +54,7 @@ verdict), "G" = generator of an input / fault space, "A" = acceptor used for tra
 | `tsout` | `TsCases` (G), `TsOut` (A) | case enumeration + trace validation | `harness/c09` independent demultiplexer | C09 |
 | `flvout` | `FlvCases` (G), `FlvOut` (A) | same | `harness/c08` independent FLV parser | C08 |
 | `hls` | `Hls` (I: segmenter, window, pooled / file store, readers; deviations FixSegPool / FixM3u8Pool / FixAudioCut), `MCHls`, `HlsTrace` (P/A) | model check with 4 negative controls, class cover + walks, trace validation | `harness/c10` (package level and live HTTP), `harness/tsdemux` | C10 |
-| `rtspwire` | `WireCases` (G), `WireFaults` (G), `RtspWire` (A) | enumeration + trace validation | `harness/c14` on the real dispatcher (`VerifReceive`) | C14 |
+| `rtspwire` | `WireReader` (I/P: the connection reader under arbitrary chunking; negative controls single-Read body / no line limit), `WireCases` (G), `WireFaults` (G), `RtspWire` (A) | model check + enumeration + trace validation | `harness/c14` on the real dispatcher (`VerifReceive`) | C14 |
 | `params` | `ParamCases` (G: syntax-branch space), `ParamProp` (P/A: the standards' derivations) | enumeration + trace validation | `harness/c15` independent bit-exact encoders | C15 |
 | `contain` | `Contain` (I/P: stage-wise containment, Recover = item / once / none), `FaultCases`, `HostileCases` (G), `ContainTrace` (A) | model check with 2 negative controls, enumeration, trace validation | `harness/c07` injection into live streams / sessions | C07 |
 | `pathpattern` | `PathPattern` (P), `PathTable`, `PathTrace` (A) | exhaustive tables | `harness/c16` | C16 |
@@ -176,7 +176,7 @@ enumerated; this section only records where the build differs from the design.
   socket to another user's channel using ids derived from the attacker's own - a genuine defect, fixed in b6695a6).
 * **C12, C13** as designed; `WriteLock.tla` does not model the buffered flush separately (the flush gate is in the
   harness).
-* **C14** `Wire` became `WireCases` / `WireFaults` / `RtspWire`; the dispatcher is reached through a verif-only
+* **C14** `Wire` became `WireReader` (design model) + `WireCases` / `WireFaults` / `RtspWire`; the dispatcher is reached through a verif-only
   export.
 * **C15** `CodecSyntax` became `ParamCases` (branch space) + `ParamProp` (derivations) with bit-exact encoders in
   the harness; the H.265 fixed-rate flag is not judged (no such flag in the standard's VUI).
